@@ -112,9 +112,9 @@ def extends(before, after):
     """dSGE: the only permitted change of a genotype is that gene lists grow at the end / new keys appear"""
     if before[0] != "dsge" or after[0] != "dsge":
         return False
-    b = {str(k): v for k, v in before[1]}
-    a = {str(k): v for k, v in after[1]}
-    return all(k in a and a[k][: len(v)] == v for k, v in b.items())
+    # position by position (dicts keep insertion order): every earlier gene list is a prefix of the later one, new keys only at the end
+    b, a = before[1], after[1]
+    return len(a) >= len(b) and all(str(ka) == str(kb) and va[: len(vb)] == vb for (kb, vb), (ka, va) in zip(b, a))
 
 
 def case_rep(c):
